@@ -76,3 +76,18 @@ Proof. exact gof_ctor. Qed.
 Theorem C14_chi2_zero_at_perfect_fit : (forall mu sg, sg <> 0 -> - (mu - mu) ^ 2 / sg ^ 2 / 2 = 0) /\
   (forall p00 p01 p10 p11, - (0 * (p00 * 0 + p01 * 0) + 0 * (p10 * 0 + p11 * 0)) / 2 = 0).
 Proof. split; [exact gauss_chi2_zero | exact quad_chi2_zero]. Qed.
+
+(* the joint types report what their parts report: DdtGaussKin / DdtHistKin hand (ddt, dd, kin_scaling) and the systematic arguments (by
+   keyword) to their kinematic part and return its answer unchanged; their Ddt measurement is the Ddt part's (r: arbitrary answer) *)
+Require Import C14.Joint.
+Theorem C14_joint_types_report_their_parts : forall (r ddt dd ks e o : val) rg cu,
+  yields (Gj r) 50 (CFun src_DdtGaussKinLikelihood_sigma_v_prediction) (Some gauss_kin) [ddt; dd] [("kin_scaling", ks)] rg cu r cu [("kin.sigma_v_prediction", [ddt; dd; ks])]
+  /\ yields (Gj r) 50 (CFun src_DdtGaussKinLikelihood_sigma_v_measurement) (Some gauss_kin) [] [("sigma_v_sys_error", e); ("sigma_v_sys_offset", o)] rg cu r cu
+       [("kin.sigma_v_measurement", [e; o])]
+  /\ yields (Gj r) 50 (CFun src_DdtGaussKinLikelihood_ddt_measurement) (Some gauss_kin) [] [] rg cu r cu [("DdtGaussianLikelihood.ddt_measurement", [])]
+  /\ yields (Gj r) 50 (CFun src_DdtHistKinLikelihood_sigma_v_prediction) (Some hist_kin) [ddt; dd] [("kin_scaling", ks)] rg cu r cu [("kin.sigma_v_prediction", [ddt; dd; ks])]
+  /\ yields (Gj r) 50 (CFun src_DdtHistKinLikelihood_sigma_v_measurement) (Some hist_kin) [] [("sigma_v_sys_error", e); ("sigma_v_sys_offset", o)] rg cu r cu
+       [("kin.sigma_v_measurement", [e; o])]
+  /\ yields (Gj r) 50 (CFun src_DdtHistKinLikelihood_ddt_measurement) (Some hist_kin) [] [] rg cu r cu [("DdtHistKDELikelihood.ddt_measurement", [])].
+Proof. intros. repeat split; [apply gauss_kin_prediction | apply gauss_kin_measurement | apply gauss_kin_ddt | apply hist_kin_prediction | apply hist_kin_measurement | apply hist_kin_ddt]. Qed.
+Print Assumptions C14_joint_types_report_their_parts.
